@@ -71,3 +71,9 @@ func VerifH_serial_xchacha20poly1305() {
 	verifrt.Assert(err == nil, "NewKey")
 	verifh.CheckKeyRoundTrip(k, &keySerializer{}, &keyParser{}, &parametersSerializer{}, &parametersParser{}, pk, id, typeURL, tinkpb.KeyData_SYMMETRIC)
 }
+
+func VerifH_c18_xchacha20poly1305() {
+	verifrt.EngineOnly()
+	a, _, _ := build()
+	verifh.CheckAEADShared(a)
+}
